@@ -26,13 +26,12 @@ Fixpoint find_rq (rqs : list drq) (i : Z) : option drq :=
 Fixpoint serving (ps : list (rid * list Z)) (i : Z) : list Z :=
   match ps with [] => [] | (r, p) :: t => if memZ i r then p else serving t i end.
 
-(* agg_fixed = true selects the model of the proposed repair of requests_aggregation (K2/K3); false = code of today *)
-Definition run_dis (agg_fixed : bool) (g : graph) (kinds : string) (oms : list (list Z * option Z)) (cutoff : nat)
+Definition run_dis (g : graph) (kinds : string) (oms : list (list Z * option Z)) (cutoff : nat)
            (rqs : list drq) (declared : list grp)
            (obs_dedup : list Z) (obs_ids : list rid) (obs_groups : list grp) (obs : dobs) : string :=
   let n := mk_net g kinds oms in
   let dd := deduplicate declared in
-  let ag := (if agg_fixed then aggregate_fixed else aggregate) (map (fun r => mkA [d_id r] (d_sig r) (d_mode r)) rqs) dd in
+  let ag := aggregate (map (fun r => mkA [d_id r] (d_sig r) (d_mode r)) rqs) dd in
   let decl_sets := map (fun d => concat (members d)) declared in
   let d_s := append "d=" (zlist_s (map gid dd)) in
   let a_s := append "a=" (append (join "," (map rid_s (final_ids ag))) (append "#" (grps_s (s_groups ag)))) in
